@@ -31,7 +31,7 @@ def shape_from_tlc(scn: dict, k: int) -> dict:
               "mem": mem, "cid": None, "version": None, "pay": [["#p0", 20 + kk % 7, "hex", kk]] if kk % 2 else [],
               "deps": [], "imgs": []}
         if child is not None:
-            sh["deps"] = [["#dep", child, "inline" if kk % 2 else "path", envgen.ALGS[(kk + 3) % 5]]]
+            sh["deps"] = [["#dep", child, ("inline", "path", "alias")[kk % 3], envgen.ALGS[(kk + 3) % 5]]]
         return sh
 
     lv = scn if isinstance(scn, list) else [scn[x] for x in sorted(scn)]
